@@ -1510,7 +1510,22 @@ func (x *SX) call(call *ast.CallExpr, st *sxState, nres int) []evalOut {
 			} else {
 				t.Dyn = x.eval(call.Fun, ao.st)
 			}
-			if !x.pureCall(fun) {
+			hasFuncArg := false
+			for _, a := range args {
+				if l, ok := a.(TLit); ok {
+					if _, isFn := l.Node.(*ast.FuncLit); isFn {
+						hasFuncArg = true
+					}
+				}
+			}
+			if sigT, ok := x.c.typeOf(call.Fun).(*types.Signature); ok {
+				for i := 0; i < sigT.Params().Len(); i++ {
+					if _, isFn := sigT.Params().At(i).Type().Underlying().(*types.Signature); isFn {
+						hasFuncArg = true
+					}
+				}
+			}
+			if hasFuncArg || !x.pureCall(fun) {
 				ao.st.epoch++
 				tt := t
 				ao.st.steps = append(ao.st.steps, Step{Kind: "call", Call: &tt, Node: call})
